@@ -65,16 +65,18 @@ def block_sweep(ctx):
     rng = ctx.rng
     flav = rng.choice([4, 5])
     L = gen.dev_create("DD", flav) + ["mountdev 0", "mount 0 0"]
-    names = [b"e%02d_sixteen_ch" % i for i in range(34)]     # 16-byte names: 42-byte records, 11 per block
+    names = [b"e%02d_sixteen_ch" % i for i in range(34)]
+    rl = 25 + len(names[0])
+    per = 488 // (rl + (rl & 1))          # 14-byte names: 40-byte records, 12 per block (the count is computed, not assumed)
     for i, nm in enumerate(names):
         L += ["open 0 - %s w" % hexs(nm), "close 0"]
     L += ["list - 1 0", "free", "dump $W/img1", "spectree"]
-    blk = rng.choice([0, 1, 2])
-    order = list(range(11 * blk, min(34, 11 * blk + 11)))
+    blk = rng.choice([0, 1, 1, 2])
+    order = list(range(per * blk, min(34, per * blk + per)))
     rng.shuffle(order)
     for k, i in enumerate(order):
         L += ["rm - %s" % hexs(names[i])]
-        if k in (0, 5, 10):
+        if k in (0, 5, len(order) - 1):
             L += ["list - 1 0", "free", "dump $W/img%d" % (k + 2), "spectree"]
     for i in order[:4]:
         L += ["mkdir - %s" % hexs(names[i])]
